@@ -144,7 +144,14 @@ def prepare_atoms(atoms, opts):
         atoms = atoms.copy()
         lengths = atoms.cell.lengths()
         pos = np.mod(atoms.positions, lengths)
-        pos[pos >= lengths] = 0.0          # np.mod of a tiny negative number returns the modulus itself
+        # np.mod of a tiny negative number returns the modulus itself, or a value one ulp below it whose fractional
+        # coordinate still rounds to 1.0: a non-periodic potential legitimately crops such an atom (half-open cell), so
+        # the wrap done here on the user's side must leave every fractional coordinate strictly below 1
+        pos[pos >= lengths] = 0.0
+        atoms.positions[:] = pos
+        # (the fractional coordinate as abTEM's crop computes it: ase solves positions = scaled @ cell)
+        scaled = atoms.get_scaled_positions(wrap=False)
+        pos[scaled >= 1.0] = 0.0
         atoms.positions[:] = pos
     return frame_atoms(atoms, opts)
 
